@@ -20,6 +20,7 @@ drivers/doe_driver.py (DOEDriver.run / _run_case / _parallel_generator).  Decide
 * C23.seed      seeded generators seed before the first draw / forward the seed to pydoe
 * C23.apply     DOEDriver sets every (name, value) of a case before solving, re-raises failures
 * C23.units     Driver._set_design_var converts from design-variable units to source units
+* C23.slots     sample dictionaries of the AnalysisDriver twins: units/indices slots agree with set_val
 * C23.partition parallel case distribution is a partition consistent with the communicator split
 """
 import ast
@@ -542,6 +543,16 @@ class PyDoe:
                         call = vv
                 if call is not None:
                     tabs.append((st, call))
+        if not tabs:
+            # a row store `V[off, a:b] = <expression>` inside a design-variable loop that is not linspace:
+            # kept with lin=None so that C23.table can decide the expression
+            for st in astx.walk_stmts(self.fn.node.body):
+                if isinstance(st, ast.Assign) and len(st.targets) == 1 and isinstance(st.targets[0], ast.Subscript) \
+                        and isinstance(st.targets[0].value, ast.Name) and \
+                        isinstance(st.targets[0].slice, ast.Tuple) and len(st.targets[0].slice.elts) == 2 and \
+                        isinstance(st.targets[0].slice.elts[1], ast.Slice) and \
+                        any(is_items_loop(l) for l in C.loops_of(st)):
+                    tabs.append((st, None))
         if len(tabs) != 1:
             raise AnalysisError(f'{self.fn.ident}: expected exactly one level-table store from np.linspace, '
                                 f'found {len(tabs)}')
@@ -588,6 +599,9 @@ def loopdef(repo, out):
         C = P.C
         B = Bounds(C, P.t_dv)
         at = C.at(P.tab)
+        if P.lin is None:
+            out.unsure(P.fn, P.tab, 'level table row is not produced by np.linspace (decided by C23.table)')
+            continue
         ops = list(P.lin.args[:2])
         for nm in ('start', 'stop'):
             if astx.kwarg(P.lin, nm) is not None:
@@ -615,6 +629,45 @@ def loopdef(repo, out):
                 out.ok(P.fn, P.tab, f'`{astx.src(e)}` is re-read from {B.meta}[{r[1]!r}] for every element')
 
 
+def affine_table(C, B, out, P):
+    """Level-table row computed as an expression of a unit grid t = linspace(0, 1, n) instead of linspace(lower, upper)."""
+    at = C.at(P.tab)
+
+    def unit_grid(e, at_):
+        if isinstance(e, ast.Name):
+            v = C.rd.value(at_, e.id)
+            if v is None:
+                return False
+            return unit_grid(v, next(iter(C.rd.defs(at_, e.id))))
+        if np_call(e, 'linspace') and len(e.args) >= 2:
+            a, b = e.args[0], e.args[1]
+            return isinstance(a, ast.Constant) and a.value == 0 and isinstance(b, ast.Constant) and b.value == 1
+        return False
+    B.spans = []
+    B.any_elem = True
+    try:
+        p = poly(P.tab.value, at, C, B, unit_grid)
+    except _NoPoly as ex:
+        out.unsure(P.fn, P.tab, f'level table row is neither np.linspace(lower, upper, n) nor an affine map of a unit '
+                   f'grid: {ex}')
+        return
+    finally:
+        B.any_elem = False
+    if p != LHS_WANT:
+        out.bad(P.fn, P.tab, f'the level table row is {_pfmt(p)} with s = linspace(0, 1, n) (L=lower, U=upper), which is '
+                'not L + s*(U - L): the levels do not span [lower, upper]', key='table-endpoints')
+        return
+    if B.spans:
+        out.bad(P.fn, P.tab, f'the levels are computed as lower + s*(upper - lower) through the difference '
+                f'`{astx.src(B.spans[0])}`: in floating point lower + 1.0*(upper - lower) is not upper (it exceeds the '
+                'upper bound by rounding for bounds such as -0.1 .. 0.3 and collapses to 0.0 for a one-sided bound '
+                'with lower = -1e30), so the highest level leaves the bounds / is not the upper bound; '
+                'np.linspace(lower, upper, n) returns both endpoints exactly', key='table-endpoint-rounding')
+        return
+    out.unsure(P.fn, P.tab, 'level table row is an endpoint-exact convex combination; remaining table clauses are only '
+               'decided for the np.linspace form')
+
+
 @rule('C23.table', floor=2)
 def table(repo, out):
     """Level table: row per element = linspace between the variable's own lower and upper with its own level count."""
@@ -622,6 +675,9 @@ def table(repo, out):
         C = P.C
         B = Bounds(C, P.t_dv)
         at = C.at(P.tab)
+        if P.lin is None:
+            affine_table(C, B, out, P)
+            continue
         lin_at = at if P.lin is P.tab.value else next(iter(C.rd.defs(at, P.tab.value.id)))
         lin = P.lin
         extra = [k.arg for k in lin.keywords if k.arg not in ('start', 'stop', 'num')]
@@ -835,6 +891,9 @@ def levels(repo, out):
     for P in pydoes(repo):
         C = P.C
         # which level function does the table use?
+        if P.lin is None:
+            out.unsure(P.fn, P.tab, 'level table row is not produced by np.linspace (decided by C23.table)')
+            continue
         num = astx.arg(P.lin, 2, 'num')
         tab_at = C.at(P.tab)
         lin_at = tab_at if P.lin is P.tab.value else next(iter(C.rd.defs(tab_at, P.tab.value.id)))
@@ -1291,7 +1350,11 @@ def poly(e, at, C, B, sample_of, depth=0):
             if isinstance(e.op, ast.Add):
                 return _padd(a, b)
             if isinstance(e.op, ast.Sub):
-                return _padd(a, b, -1)
+                r = _padd(a, b, -1)
+                if r in ({('U',): Fraction(1), ('L',): Fraction(-1)}, {('U',): Fraction(-1), ('L',): Fraction(1)}) \
+                        and getattr(B, 'spans', None) is not None:
+                    B.spans.append(e)
+                return r
             return _pmul(a, b)
         if isinstance(e.op, ast.Div):
             b = poly(e.right, at, C, B, sample_of, depth + 1)
@@ -1302,7 +1365,8 @@ def poly(e, at, C, B, sample_of, depth=0):
     if smp:
         return {('s',): Fraction(1)}
     r = B.resolve(e, at)
-    if r and r != CARRIED and r[0] == 'B' and r[1] in ('lower', 'upper') and r[2] is None:
+    if r and r != CARRIED and r[0] == 'B' and r[1] in ('lower', 'upper') and \
+            (r[2] is None or getattr(B, 'any_elem', False)):
         return {('L' if r[1] == 'lower' else 'U',): Fraction(1)}
     if isinstance(e, ast.Name):
         v = C.rd.value(at, e.id)
@@ -1688,6 +1752,50 @@ def attr_stores(repo, rel, cls, attr):
     return out_
 
 
+_NP_RANDOM = ('np.random', 'numpy.random')
+
+
+def _classify_side(repo, rel, cls, C, e, at, call_funcs, want_object, pol, st, f, attr, depth):
+    """classify_rng for a stored value, knowing on which side of a `seed is None` test it is evaluated.
+
+    pol: 'pos' (seed is not None), 'neg' (seed is None), None (unknown)."""
+    if isinstance(e, ast.IfExp):
+        t = seed_test(C, e.test, at)
+        if t is None and seed_path(C, e.test, at):
+            t = 'truthy'
+        if t is not None:
+            other = {'pos': 'neg', 'neg': 'pos', 'truthy': 'zero'}[t]
+            sides = ((e.body, 'pos' if t == 'truthy' else t), (e.orelse, other))
+            texts = []
+            for b, side in sides:
+                if pol in ('pos', 'neg') and side in ('pos', 'neg') and side != pol:
+                    continue      # dead branch under the enclosing test
+                r = _classify_side(repo, rel, cls, C, b, at, call_funcs, want_object, side, st, f, attr, depth + 1)
+                if r[0] != 'ok':
+                    return r
+                texts.append(r[1])
+            return ('ok', ' / '.join(texts))
+    if pol == 'neg':
+        if astx.path(e) in _NP_RANDOM or (isinstance(e, ast.Constant) and e.value is None) or is_rng_ctor(e):
+            return ('ok', f'without a seed: `{astx.src(e)}`')
+        return ('unsure', f'unseeded side `{astx.src(e)}` not recognised')
+    if astx.path(e) in _NP_RANDOM and pol == 'zero':
+        return ('bad', f'self.{attr} falls back to the process-wide numpy generator whenever self._seed is falsy '
+                f'(`{astx.src(st)}`): 0 is a valid seed and would be ignored', st, 'seed-private', f)
+    if pol == 'zero':
+        pol = None
+    if astx.path(e) in _NP_RANDOM:
+        if pol == 'pos':
+            return ('bad', f'with a seed given, self.{attr} is the process-wide numpy generator (`{astx.src(st)}`): the '
+                    'draws do not come from a generator created from self._seed, so the seed has no effect / the cases '
+                    'depend on every other user of np.random', st, 'seed-private', f)
+        return ('unsure', f'self.{attr} is the numpy module whether or not a seed is given')
+    r = classify_rng(repo, rel, cls, C, e, at, call_funcs, want_object, depth + 1)
+    if r[0] == 'ok' and pol == 'pos':
+        return ('ok', f'with a seed: {r[1]}')
+    return r
+
+
 def classify_rng(repo, rel, cls, C, e, at, call_funcs, want_object=False, depth=0):
     """Is `e` (evaluated at CFG node `at` of a function in call_funcs) a function of self._seed at call time?
 
@@ -1746,6 +1854,9 @@ def classify_rng(repo, rel, cls, C, e, at, call_funcs, want_object=False, depth=
             return ('unsure', f'self.{attr} is never assigned in {cls}')
         inside = [(f, st) for f, st in stores if f.node in [cf.node for cf in call_funcs]]
         outside = [(f, st) for f, st in stores if (f, st) not in inside]
+        # a placeholder `self.x = np.random` (the numpy module) outside is overwritten by the inside store(s)
+        placeholders = [(f, st) for f, st in outside if astx.path(getattr(st, 'value', None)) in _NP_RANDOM]
+        outside = [x for x in outside if x not in placeholders]
         for f, st in outside:
             val = getattr(st, 'value', None)
             if val is not None and has_rng_ctor(val):
@@ -1762,23 +1873,45 @@ def classify_rng(repo, rel, cls, C, e, at, call_funcs, want_object=False, depth=
                     return ('unsure', f'self.{attr} assigned in {f.qualname} from `{astx.src(val)}`')
             if not inside:
                 return ('ok', f'self.{attr} holds the integer seed argument')
-        # assigned (also) inside the calling function: must be an unconditional rebuild before the use
-        if len(inside) != 1:
-            return ('unsure', f'self.{attr} assigned in several places')
-        f, st = inside[0]
+        if not inside:
+            return ('unsure', f'self.{attr} is only ever the numpy module: seeding is a matter of np.random.seed')
+        # assigned inside the calling / (re)initialising function: with a seed given, every path must store a
+        # generator built from the seed before the use; the module-level fallback is fine only when seed is None
+        if len({f.node for f, _ in inside}) != 1:
+            return ('unsure', f'self.{attr} assigned in several methods')
+        f = inside[0][0]
         if f.node is not C.fn.node:
             # built by the (re)initialisation step of the iterator (e.g. _setup), used in another method
             C = ctx_of(f)
             at = C.g.exit
-        d = C.at(st)
-        if C.g.dominated_by(at, [d], labels=cfgm.noexc) is not None:
-            val = getattr(st, 'value', None)
-            if val is not None and has_rng_ctor(val):
-                return ('bad', f'self.{attr} is created lazily (`{astx.src(st)}` is skipped on some paths) and kept '
+        nodes = [C.at(st) for _, st in inside]
+        w = C.g.path([C.g.entry], [at], avoid=nodes, edge_ok=seeded_edge_ok(C))
+        if w is not None:
+            lazy = next((st for _, st in inside if has_rng_ctor(getattr(st, 'value', None) or ast.Pass())), None)
+            if lazy is not None:
+                return ('bad', f'self.{attr} is created lazily (`{astx.src(lazy)}` is skipped on some paths) and kept '
                         'between calls: later calls continue the random stream instead of restarting from the seed',
-                        st, 'seed-stateful', f)
+                        lazy, 'seed-stateful', f)
             return ('unsure', f'self.{attr} is not rebuilt on every path')
-        return classify_rng(repo, rel, cls, C, st.value, d, call_funcs, want_object, depth + 1)
+        texts = []
+        for _, st in inside:
+            d = C.at(st)
+            pol = None
+            cur = st
+            for a in astx.ancestors(st):
+                if a is f.node:
+                    break
+                if isinstance(a, ast.If):
+                    t = seed_test(C, a.test, C.at(a))
+                    if t is not None:
+                        in_body = astx.in_body(st, a, 'body')
+                        pol = t if in_body else {'pos': 'neg', 'neg': 'pos'}[t]
+                        break
+            r = _classify_side(repo, rel, cls, C, st.value, d, call_funcs, want_object, pol, st, f, attr, depth)
+            if r[0] != 'ok':
+                return r
+            texts.append(r[1])
+        return ('ok', '; '.join(texts))
     return ('unsure', f'`{astx.src(e)}` not recognised')
 
 
@@ -1851,6 +1984,16 @@ def seed(repo, out):
             out.bad(fi, sets[0].ast, 'self._seed is stored after the base-class constructor ran _setup', key='seed-attr')
         else:
             out.ok(fs, fs.node, '_setup seeds the numpy global generator on every path when seed is not None')
+        # ... but _setup runs when the generator is constructed while the draws happen lazily in __next__
+        seeds = [n for n in Cs.g.nodes if n.kind in ('stmt',) for c in n.calls()
+                 if (astx.call_name(c) or '').endswith('random.seed')]
+        if seeds and fs.node is not fnx.node:
+            out.bad(fs, seeds[0].ast, 'the process-wide numpy generator is seeded when the generator object is '
+                    'constructed (_setup is called from __init__) but the samples are drawn lazily from that shared '
+                    'generator in __next__: anything that seeds or draws from np.random between construction and '
+                    'iteration changes the cases, e.g. two generators built with the same seed and then iterated '
+                    'yield different cases; use a private generator built from self._seed in _setup',
+                    key='seed-construction-time')
     # Latin hypercube: the seed must reach pydoe, as a function of self._seed evaluated at call time
     for rel, cls in LHS:
         (cf, call), _ = lhs_parts(repo, rel, cls)
@@ -2634,6 +2777,91 @@ def units(repo, out):
                'written back to the same elements')
 
 
+# =========================================================================== sample dictionaries (AnalysisDriver twins)
+AG = 'openmdao/drivers/analysis_generator.py'
+AD = 'openmdao/drivers/analysis_driver.py'
+SAMPLE_SLOTS = ('units', 'indices')
+
+
+def _slot_read(C, e, at, depth=0):
+    """Key literal K if e reads slot K of a dictionary: `M.get(K[, None])` / `M[K]` (through local aliases)."""
+    if depth > 4:
+        return None
+    if isinstance(e, ast.Name):
+        v = C.rd.value(at, e.id)
+        if v is None:
+            return None
+        return _slot_read(C, v, next(iter(C.rd.defs(at, e.id))), depth + 1)
+    if isinstance(e, ast.Call) and isinstance(e.func, ast.Attribute) and e.func.attr == 'get' and \
+            1 <= len(e.args) <= 2 and not e.keywords:
+        if len(e.args) == 2 and not (isinstance(e.args[1], ast.Constant) and e.args[1].value is None):
+            return None
+        return astx.const_str(e.args[0])
+    if isinstance(e, ast.Subscript):
+        return astx.const_str(e.slice)
+    return None
+
+
+@rule('C23.slots', floor=7)
+def slots(repo, out):
+    """Sample dictionaries: 'units'/'indices' of a sample are the factor's own 'units'/'indices', and reach set_val in those positions."""
+    # producers
+    for rel, qn in ((SU, 'UniformGenerator.__next__'), (AG, 'AnalysisGenerator.__next__')):
+        fn = repo.func(rel, qn)
+        C = ctx_of(fn)
+        dicts = [w_ for w_ in astx.walk(fn.node) if isinstance(w_, ast.Dict) and
+                 {astx.const_str(k) for k in w_.keys if k is not None} & set(SAMPLE_SLOTS)]
+        if len(dicts) != 1:
+            out.unsure(fn, fn.node, f'expected one sample dictionary literal, found {len(dicts)}')
+            continue
+        d = dicts[0]
+        st = astx.stmt_of(d)
+        at = C.at(st)
+        keys = [astx.const_str(k) for k in d.keys]
+        if 'val' not in keys:
+            out.bad(fn, st, "the sample dictionary has no 'val' entry", key='slot-val')
+            continue
+        for slot in SAMPLE_SLOTS:
+            if slot not in keys:
+                out.bad(fn, st, f"the sample dictionary drops the factor's {slot!r}: the value is applied in the wrong "
+                        f"{'units' if slot == 'units' else 'elements of the variable'}", key=f'slot-{slot}')
+                continue
+            v = d.values[keys.index(slot)]
+            k = _slot_read(C, v, at)
+            if k is None:
+                out.unsure(fn, st, f'value of {slot!r} not recognised: {astx.src(v)}')
+            elif k != slot:
+                out.bad(fn, st, f"the {slot!r} entry of the sample is filled from the factor's {k!r} "
+                        f"(`{astx.src(v)}`): " +
+                        ("an indexed factor is applied to the whole variable (or to the elements named by another "
+                         "entry), so the model is evaluated at points that were never generated"
+                         if slot == 'indices' else "the value is converted with the wrong units / not converted"),
+                        key=f'slot-{slot}')
+            else:
+                out.ok(fn, st, f"{slot!r} <- factor[{slot!r}]")
+    # consumer
+    fn = repo.func(AD, 'AnalysisDriver._run_sample')
+    C = ctx_of(fn)
+    calls = [(n, c) for n in C.g.nodes if n.kind == 'stmt' for c in n.calls()
+             if astx.callee_attr(c) == 'set_val' and len(c.args) + len(c.keywords) >= 2]
+    if len(calls) != 1:
+        out.unsure(fn, fn.node, f'expected one set_val call, found {len(calls)}')
+        return
+    n, c = calls[0]
+    for pos, slot, kwn in ((1, 'val', 'val'), (2, 'units', 'units'), (3, 'indices', 'indices')):
+        a = astx.arg(c, pos, kwn)
+        if a is None:
+            out.bad(fn, n.ast, f"set_val is called without the sample's {slot!r}", key=f'slot-{slot}')
+            continue
+        k = _slot_read(C, a, n)
+        if k is None:
+            out.unsure(fn, n.ast, f'argument `{astx.src(a)}` not recognised')
+        elif k != slot:
+            out.bad(fn, n.ast, f"set_val receives the sample's {k!r} as its {kwn} argument", key=f'slot-{slot}')
+        else:
+            out.ok(fn, n.ast, f"set_val {kwn} <- sample[{slot!r}]")
+
+
 # =========================================================================== self-test (part 1: pyDOE)
 _TAB_DG = ("            for k in range(size):\n"
            "                lower = meta['lower']\n"
@@ -2748,8 +2976,8 @@ selftest(
     Mutant('uniform-low-low', DG, "np.random.uniform(lower, upper)", "np.random.uniform(lower, lower)", 'C23.uniform'),
     Mutant('uniform-upper-key', DG, "                upper = meta['upper']\n                if not isinstance(upper, np.ndarray):\n                    upper = upper * np.ones(size)\n\n                sample",
            "                upper = meta['lower']\n                if not isinstance(upper, np.ndarray):\n                    upper = upper * np.ones(size)\n\n                sample", 'C23.uniform'),
-    Mutant('uniform-sampling-key', SU, "np.random.uniform(meta['lower'], meta['upper'], sizes[name])",
-           "np.random.uniform(meta['lower'], meta['lower'], sizes[name])", 'C23.uniform'),
+    Mutant('uniform-sampling-key', SU, "self._rng.uniform(meta['lower'], meta['upper'], sizes[name])",
+           "self._rng.uniform(meta['lower'], meta['lower'], sizes[name])", 'C23.uniform'),
     Mutant('uniform-yield-late', DG, "                sample.append((name, np.random.uniform(lower, upper)))\n\n            yield sample\n",
            "                sample.append((name, np.random.uniform(lower, upper)))\n\n        yield sample\n", 'C23.uniform'),
     Mutant('uniform-elem-zero', DG, "                lower = meta['lower']\n                if not isinstance(lower, np.ndarray):\n                    lower = lower * np.ones(size)\n\n                upper = meta['upper']\n                if not isinstance(upper, np.ndarray):\n                    upper = upper * np.ones(size)\n\n                sample",
@@ -2762,9 +2990,15 @@ selftest(
     Mutant('seed-after-first-sample', DG, "        if self._seed is not None:\n            np.random.seed(self._seed)\n\n        for _ in range(self._num_samples):\n            sample = []\n",
            "        for _ in range(self._num_samples):\n            sample = []\n", 'C23.seed',
            also=[(DG, "            yield sample\n", "            yield sample\n            if self._seed is not None:\n                np.random.seed(self._seed)\n")]),
-    Mutant('seed-inverted-guard', SU, "        if self._seed is not None:\n            np.random.seed(self._seed)\n",
-           "        if self._seed is None:\n            np.random.seed(self._seed)\n", 'C23.seed'),
-    Mutant('seed-sampling-truthy', SU, "        if self._seed is not None:\n", "        if self._seed:\n", 'C23.seed'),
+    Mutant('seed-inverted-guard', SU, "if self._seed is not None else np.random\n", "if self._seed is None else np.random\n", 'C23.seed'),
+    Mutant('seed-sampling-truthy', SU, "if self._seed is not None else np.random\n", "if self._seed else np.random\n", 'C23.seed'),
+    # the shape repaired by dd23f15: process-wide seeding at construction, lazy process-wide draws
+    Mutant('seed-sampling-construction-time', SU, "        self._rng = np.random.RandomState(self._seed) if self._seed is not None else np.random\n",
+           "        if self._seed is not None:\n            np.random.seed(self._seed)\n", 'C23.seed',
+           also=[(SU, "self._rng.uniform(meta['lower']", "np.random.uniform(meta['lower']")]),
+    Mutant('seed-sampling-private-unused', SU, "self._rng.uniform(meta['lower']", "np.random.uniform(meta['lower']", 'C23.seed'),
+    Mutant('seed-sampling-if-else-inverted', SU, "        self._rng = np.random.RandomState(self._seed) if self._seed is not None else np.random\n",
+           "        if self._seed is None:\n            self._rng = np.random.RandomState(self._seed)\n        else:\n            self._rng = np.random\n", 'C23.seed'),
     Mutant('seed-lhs-not-forwarded', DG, "                        iterations=self._iterations,\n                        random_state=self._seed)",
            "                        iterations=self._iterations)", 'C23.seed'),
     Mutant('seed-lhs-fixed', SP, "random_state=self._seed)", "random_state=0)", 'C23.seed'),
@@ -2776,8 +3010,10 @@ selftest(
     Twin('twin-lhs-span-temp', DG, _LHS_MAP, "span = upper - lower\n                val = span * sample + lower"),
     Twin('twin-seed-flipped-guard', DG, "        if self._seed is not None:\n            np.random.seed(self._seed)\n\n        for _ in range",
          "        if self._seed is None:\n            pass\n        else:\n            np.random.seed(self._seed)\n\n        for _ in range"),
-    Twin('twin-seed-alias', SU, "        if self._seed is not None:\n            np.random.seed(self._seed)\n",
-         "        seed = self._seed\n        if not (seed is None):\n            np.random.seed(seed)\n"),
+    Twin('twin-seed-alias', SU, "        self._rng = np.random.RandomState(self._seed) if self._seed is not None else np.random\n",
+         "        seed = self._seed\n        self._rng = np.random if seed is None else np.random.RandomState(seed)\n"),
+    Twin('twin-seed-sampling-if-else', SU, "        self._rng = np.random.RandomState(self._seed) if self._seed is not None else np.random\n",
+         "        if self._seed is not None:\n            self._rng = np.random.RandomState(self._seed)\n        else:\n            self._rng = np.random\n"),
     Twin('twin-uniform-temp', DG, "                sample.append((name, np.random.uniform(lower, upper)))\n",
          "                draw = np.random.uniform(low=lower, high=upper)\n                sample.append((name, draw))\n"),
     Twin('twin-lhs-drop-global-seed', DG, "        if self._seed is not None:\n            np.random.seed(self._seed)\n\n        size = sum(",
@@ -2892,18 +3128,16 @@ selftest(
     Mutant('seed-uniform-module-rng', DG, "_LEVELS = 2  # default number of levels for pyDOE generators\n",
            "_LEVELS = 2  # default number of levels for pyDOE generators\n_RNG = np.random.RandomState(0)\n", 'C23.seed',
            also=[(DG, "np.random.uniform(lower, upper)", "_RNG.uniform(lower, upper)")]),
-    Mutant('seed-uniform-sampling-state-in-init', SU, "        self._seed = seed\n        self._sizes = sizes = {}",
-           "        self._seed = seed\n        self._rng = np.random.default_rng(seed)\n        self._sizes = sizes = {}", 'C23.seed',
-           also=[(SU, "np.random.uniform(meta['lower']", "self._rng.uniform(meta['lower']")]),
+    Mutant('seed-uniform-sampling-state-in-init', SU, "        self._rng = np.random\n        self._sizes = sizes = {}",
+           "        self._rng = np.random.default_rng(seed)\n        self._sizes = sizes = {}", 'C23.seed',
+           also=[(SU, "        self._rng = np.random.RandomState(self._seed) if self._seed is not None else np.random\n", "")]),
     Twin('twin-seed-lhs-local-state', DG, "        # generate design\n        doe = self._lhs(size, samples=self._samples,",
          "        rs = None if self._seed is None else np.random.RandomState(self._seed)\n        # generate design\n        doe = self._lhs(size, samples=self._samples,",
          also=[(DG, _LHS_RS, "                        random_state=rs)\n\n        # yield desvar values")]),
     Twin('twin-seed-uniform-local-rng', DG, "        if self._seed is not None:\n            np.random.seed(self._seed)\n\n        for _ in range",
          "        rng = np.random.RandomState(self._seed)\n\n        for _ in range",
          also=[(DG, "np.random.uniform(lower, upper)", "rng.uniform(lower, upper)")]),
-    Twin('twin-seed-sampling-rng-in-setup', SU, "        if self._seed is not None:\n            np.random.seed(self._seed)\n",
-         "        self._rng = np.random.default_rng(self._seed)\n",
-         also=[(SU, "np.random.uniform(meta['lower']", "self._rng.uniform(meta['lower']")]),
+    Twin('twin-seed-sampling-rng-in-setup', SU, "        self._rng = np.random.RandomState(self._seed) if self._seed is not None else np.random\n", "        self._rng = np.random.RandomState(self._seed)\n"),
 )
 
 
@@ -2967,4 +3201,24 @@ selftest(
            "convert_units(desvar[loc_idxs], meta['units'], meta['units'])", 'C23.units'),
     Twin('twin-units-temp', DRV, "                desvar[loc_idxs] = convert_units(desvar[loc_idxs], meta['units'], src_units)",
          "                dv_units = meta['units']\n                desvar[loc_idxs] = convert_units(desvar[loc_idxs], dv_units, src_units)"),
+)
+
+
+_AGD = "'indices': self._var_dict[name].get('indices', None)}"
+selftest(
+    'C23',
+    # ---- round-2 seeds
+    Mutant('levels-ignore-default-sampling', SP, "return sum([v * [self._get_levels(k)] for k, v in sizes.items()], [])",
+           "return sum([v * [self._levels.get(k, _LEVELS)] for k, v in sizes.items()], [])", 'C23.levels'),
+    Mutant('table-affine-unit-grid', DG, "                levels = self._get_dv_levels(name)\n                values[row, 0:levels] = np.linspace(lower, upper, num=levels)\n",
+           "                levels = self._get_dv_levels(name)\n                steps = np.linspace(0., 1., num=levels)\n                values[row, 0:levels] = lower + steps * (upper - lower)\n", 'C23.table'),
+    Mutant('table-affine-span-temp', SP, "                    values[row, 0:levels] = np.linspace(lower, upper, num=levels)\n",
+           "                    span = upper - lower\n                    values[row, 0:levels] = np.linspace(0, 1, levels) * span + lower\n", 'C23.table'),
+    Mutant('slots-indices-from-units', SU, "'indices': meta.get('indices', None)", "'indices': meta.get('units', None)", 'C23.slots'),
+    Mutant('slots-units-from-indices-base', AG, "'units': self._var_dict[name].get('units', None),", "'units': self._var_dict[name].get('indices', None),", 'C23.slots'),
+    Mutant('slots-consumer-swapped', AD, "self._problem().model.set_val(var, val, units, idxs)", "self._problem().model.set_val(var, val, idxs, units)", 'C23.slots'),
+    Mutant('slots-indices-dropped', SU, "                'units': meta.get('units', None),\n                'indices': meta.get('indices', None)\n", "                'units': meta.get('units', None),\n", 'C23.slots'),
+    Twin('twin-slots-subscript-alias', SU, "                'indices': meta.get('indices', None)\n            }", "                'indices': idx\n            }",
+         also=[(SU, "            d[name] = {\n", "            idx = meta.get('indices')\n            d[name] = {\n")]),
+    Twin('twin-slots-consumer-keywords', AD, "self._problem().model.set_val(var, val, units, idxs)", "self._problem().model.set_val(var, val, indices=idxs, units=units)"),
 )
